@@ -775,6 +775,7 @@ func (r *Raft) submitReadOnlyOperation(
 		Bytes:         operationBytes,
 		OperationType: readOnlyType,
 		readIndex:     readIndex,
+		round:         r.operationManager.rounds,
 	}
 	r.operationManager.pendingReadOnly[operation] = operationFuture.responseCh
 
@@ -968,12 +969,17 @@ func (r *Raft) AppendEntries(request *AppendEntriesRequest, response *AppendEntr
 
 // sendAppendEntriesToPeers sends an AppendEntries RPC to all nodes.
 func (r *Raft) sendAppendEntriesToPeers() {
+	// This starts a new heartbeat round. It can verify leadership only for the
+	// read-only operations that have already been submitted.
+	r.operationManager.rounds++
+	round := r.operationManager.rounds
+
 	// Handle the single node cluster case.
 	if r.isSingleServerCluster() {
 		if r.log.LastIndex() > r.commitIndex {
 			r.commitCond.Broadcast()
 		}
-		r.tryApplyReadOnlyOperations()
+		r.tryApplyReadOnlyOperations(round)
 	}
 
 	// Leadership is confirmed by a majority of the voting members: this node's own
@@ -984,14 +990,14 @@ func (r *Raft) sendAppendEntriesToPeers() {
 	}
 	for id, address := range r.configuration.Members {
 		if id != r.id {
-			go r.sendAppendEntries(id, address, &numResponses)
+			go r.sendAppendEntries(id, address, &numResponses, round)
 		}
 	}
 }
 
 // sendAppendEntries sends an AppendEntries RPC to a node with the provided ID
-// and address.
-func (r *Raft) sendAppendEntries(id string, address string, numResponses *int) {
+// and address. The round is the number of the heartbeat round the request belongs to.
+func (r *Raft) sendAppendEntries(id string, address string, numResponses *int, round uint64) {
 	r.mu.Lock()
 	defer r.mu.Unlock()
 
@@ -1066,7 +1072,7 @@ func (r *Raft) sendAppendEntries(id string, address string, numResponses *int) {
 	if numResponses != nil && r.isVoter(id) {
 		*numResponses += 1
 		if r.hasQuorum(*numResponses) {
-			r.tryApplyReadOnlyOperations()
+			r.tryApplyReadOnlyOperations(round)
 			numResponses = nil
 		}
 	}
@@ -1976,9 +1982,10 @@ func (r *Raft) stepdown() {
 }
 
 // tryApplyReadOnlyOperations renews the lease and notifies the read-only
-// loop that it may be possible to apply some read-only operations.
-func (r *Raft) tryApplyReadOnlyOperations() {
-	r.operationManager.markAsVerified()
+// loop that it may be possible to apply some read-only operations. The round
+// is the number of the heartbeat round that was answered by a majority.
+func (r *Raft) tryApplyReadOnlyOperations(round uint64) {
+	r.operationManager.markAsVerifiedByRound(round)
 	r.operationManager.leaderLease.renew()
 	r.operationManager.shouldVerifyQuorum = true
 	r.readOnlyCond.Broadcast()
